@@ -17,7 +17,7 @@ def make_plan(ths, tier, rnd):
             continue
         api = histories.api_of(sig, modelcheck.module_path(theory))
         n = SIZE.get(theory, 3)
-        for _ in range(200 if thorough else 50):
+        for _ in range(100 if thorough else 50):
             plan.add(theory, histories.random_history(sig, api, rnd, rnd.randint(4, 16), n, p_close=0.15, p_until=0.05, allow_define=True))
     return plan
 
